@@ -92,8 +92,8 @@ RULE = ("quick: all trees with <= 2 leaves over 10 leaf kinds (SetContext consta
         "later in-place update of the run-time context below the same parent by a user mutator, a second "
         "UpdateContextFromStatic or MakeFilename; flat, nested, in a Split branch; three values without the key); every "
         "element's static state and names are read before and again after the run.  thorough: "
-        "all trees with <= 3 leaves over 10 leaf kinds (the 9 and the mutator), 120 000 seeded 4-leaf trees over 7 leaf "
-        "kinds, 80 000 random trees.  Non-trivial: some element saw a non-empty context or "
+        "all trees with <= 3 leaves over 8 leaf kinds (the 7 of the quick sample and the mutator) and with <= 2 leaves over "
+        "all 10, 100 000 seeded 4-leaf trees over the 10 kinds, 80 000 random trees.  Non-trivial: some element saw a non-empty context or "
         "derived a formatted name.")
 LEVEL_TEXT = ("Lean 4 theorems about a transcribed model of the multi-pass static-context protocol (bottom-up construction, "
               "_set_context({}) in every constructor, re-propagation by enclosing sequences, skip-while-empty, stale "
@@ -1098,8 +1098,8 @@ def sampled_cases(rng, n, depth, leaves, count):
 def gen_cases(ctx):
     """quick: every tree with <= 2 leaves over the 9-leaf alphabet and 6000 seeded draws from the trees with 3 leaves
     over the 7-leaf alphabet (depth <= 2, Sequence and Source tops), 4000 random trees of depth <= 3 with causality
-    variants.  thorough: all trees with <= 3 leaves over the 10-leaf alphabet, 120 000 seeded draws from the trees with 4
-    leaves over the 7-leaf alphabet, 80 000 random trees (memory: the whole case list lives in the parent process)."""
+    variants.  thorough: all trees with <= 3 leaves over 8 leaf kinds (the 7 and the mutator) and with <= 2 leaves over all 10,
+    100 000 seeded draws from the trees with 4 leaves over the 10 kinds, 80 000 random trees (memory: the whole case list lives in the parent process)."""
     rng = ctx.rng
     cases = alias_cases()
     if ctx.tier == "quick":
@@ -1107,8 +1107,9 @@ def gen_cases(ctx):
         cases.extend(sampled_cases(rng, 3, 2, EX_LEAVES, 6000))
         n_rand = 4000
     else:
-        cases.extend(exhaustive_cases(3, 2, EX_LEAVES + EX_LEAVES_MORE, source=True))
-        cases.extend(sampled_cases(rng, 4, 2, EX_LEAVES, 120000))
+        cases.extend(exhaustive_cases(3, 2, EX_LEAVES + EX_LEAVES_MORE[2:], source=True))
+        cases.extend(exhaustive_cases(2, 2, EX_LEAVES + EX_LEAVES_MORE, source=True))
+        cases.extend(sampled_cases(rng, 4, 2, EX_LEAVES + EX_LEAVES_MORE, 100000))
         n_rand = 80000
     for i in range(n_rand):
         pformat = (0.0, 0.3, 0.6)[i % 3]
